@@ -75,7 +75,7 @@ PROPS = {
         "timeout": 1500,
     },
     "C07": {
-        "lean_modules": ["JrpcProofs.Props.C07", "JrpcProofs.Lemmas.Stream", "JrpcProofs.Facts.Stream", "JrpcProofs.Facts.Frames"],
+        "lean_modules": ["JrpcProofs.Props.C07", "JrpcProofs.Lemmas.Stream", "JrpcProofs.Facts.Stream", "JrpcProofs.Facts.Frames", "JrpcProofs.Props.Forwarder"],
         "assumptions": [
             "the transport is FIFO per direction (TCP, gorilla/websocket, the frame queue): the model's wire is 'announcement, then values, then close'",
             "hooks only delay goroutines; the two sides of the sink/buffer rendezvous are logged independently and reconciled by the replayer",
@@ -84,7 +84,7 @@ PROPS = {
         "timeout": 1500,
     },
     "C08": {
-        "lean_modules": ["JrpcProofs.Props.C08", "JrpcProofs.Lemmas.Stream", "JrpcProofs.Facts.Stream", "JrpcProofs.Facts.Frames", "JrpcProofs.Props.Sweep", "JrpcProofs.Facts.Sweep"],
+        "lean_modules": ["JrpcProofs.Props.C08", "JrpcProofs.Lemmas.Stream", "JrpcProofs.Facts.Stream", "JrpcProofs.Facts.Frames", "JrpcProofs.Props.Sweep", "JrpcProofs.Facts.Sweep", "JrpcProofs.Props.Forwarder"],
         "assumptions": [
             "as C07; 'eventually closed' is proved as enabledness of the close after each cause (PARTIAL: needs fairness and a consumer that keeps reading or cancels) and observed with a time-out in the scenarios",
         ],
